@@ -84,6 +84,9 @@ def build_native(u, work):
             s = open(p).read()
             if '@REPO@' in s:
                 open(p, 'w').write(s.replace('@REPO@', REPO))
+            # fresh time stamps: cargo decides by mtime whether the cached build script / binary of this package is still
+            # valid, and the cache may hold artifacts of ANOTHER version of this template (copytree keeps the old stamps)
+            os.utime(p, None)
     lock = os.path.join(REPO, 'Cargo.lock')
     if os.path.exists(lock):
         shutil.copy(lock, os.path.join(cdir, 'Cargo.lock'))
